@@ -109,6 +109,15 @@ func c18objects(seed int64, keys *gen.KeyRing, n int) []*c18object {
 			}
 			if decoded {
 				b, _ := m.MarshalCBOR()
+				if (i/7)%2 == 1 {
+					// a peer's encoding: non-shortest protected bstr head, non-canonical inner map,
+					// signed by the reference signer over exactly those bytes
+					a := int64(k.Alg)
+					wm := &gen.WSign1{L: gen.RandLayer(r, gen.LayerOpts{Alg: &a, MaxProt: 4, MaxUnprot: 2, ScramblePct: 70}), Payload: payload, Tagged: true}
+					wm.L.ProtWidth = mon.Pick(r, 2, 3, 5, 9)
+					wm.Sig = gen.RefSign(k.Ref(), wm.TBS(ext, payload))
+					b = wm.Bytes()
+				}
 				d := &cose.Sign1Message{}
 				if d.UnmarshalCBOR(b) != nil {
 					continue
@@ -140,6 +149,17 @@ func c18objects(seed int64, keys *gen.KeyRing, n int) []*c18object {
 			}
 			if decoded {
 				b, _ := m.MarshalCBOR()
+				if (i/7)%2 == 1 {
+					// re-head every protected bstr non-minimally (signatures stay valid: only the prefix width changes)
+					if t, err := gen.ParseTree(b); err == nil {
+						body := t.Root.Kids[0]
+						body.Kids[0].Width = mon.Pick(r, 2, 3, 5)
+						for _, g := range body.Kids[3].Kids {
+							g.Kids[0].Width = mon.Pick(r, 2, 3, 9)
+						}
+						b = t.Seal()
+					}
+				}
 				d := &cose.SignMessage{}
 				if d.UnmarshalCBOR(b) != nil {
 					continue
@@ -174,6 +194,18 @@ func c18objects(seed int64, keys *gen.KeyRing, n int) []*c18object {
 			if decoded {
 				parent.Headers.Unprotected[int64(11)] = cs
 				b, _ := parent.MarshalCBOR()
+				if (i/7)%2 == 1 {
+					if t, err := gen.ParseTree(b); err == nil {
+						body := t.Root.Kids[0]
+						body.Kids[0].Width = mon.Pick(r, 2, 3, 5)
+						for x := 0; x+1 < len(body.Kids[1].Kids); x += 2 {
+							if l, ok := body.Kids[1].Kids[x].Int64(); ok && l == 11 {
+								body.Kids[1].Kids[x+1].Kids[0].Width = mon.Pick(r, 2, 3, 9)
+							}
+						}
+						b = t.Seal()
+					}
+				}
 				d := &cose.Sign1Message{}
 				if d.UnmarshalCBOR(b) != nil {
 					continue
@@ -227,6 +259,9 @@ func c18objects(seed int64, keys *gen.KeyRing, n int) []*c18object {
 				continue
 			}
 			ck.ID = []byte("kid")
+			if (i/7)%2 == 1 {
+				ck.Algorithm = cose.AlgorithmReserved // no alg parameter: the algorithm is derived from the curve on every use
+			}
 			if decoded {
 				b, _ := ck.MarshalCBOR()
 				d := &cose.Key{}
